@@ -122,6 +122,10 @@ func (e *Env) GetValue(symbol string) (reflect.Value, error) {
 				// a lookup answering the zero reflect.Value without an error: nil, as DefineValue stores it
 				value = NilValue
 			}
+			if !value.CanInterface() {
+				// what no binding may hold the lookup may not answer either: every use of it would panic
+				return NilValue, errUnexportedValue
+			}
 			return value, nil
 		}
 	}
@@ -195,6 +199,9 @@ func (e *Env) Addr(symbol string) (reflect.Value, error) {
 	if externalLookup != nil {
 		v, err := externalLookup.Get(symbol)
 		if err == nil {
+			if v.IsValid() && !v.CanInterface() {
+				return NilValue, errUnexportedValue
+			}
 			if isSharedNil(v) {
 				return reflect.New(v.Type()), nil
 			}
